@@ -75,13 +75,15 @@ pub struct Eval<'a> {
   /// (rule name, value address) pairs in progress: re-entry = no match (least fixed point)
   active: Vec<(String, usize)>,
   poison: bool,
+  /// decide maps with duplicate keys (C10) instead of leaving them unspecified
+  pub dup_keys_decided: bool,
 }
 
 const MAX_FUEL: u64 = 400_000;
 
 impl<'a> Eval<'a> {
   pub fn new(gs: &'a GS, json: bool) -> Eval<'a> {
-    Eval { gs, json, fuel: MAX_FUEL, out_of_fuel: false, active: vec![], poison: false }
+    Eval { gs, json, fuel: MAX_FUEL, out_of_fuel: false, active: vec![], poison: false, dup_keys_decided: false }
   }
 
   /// verdict of the first type rule (the root) on `v`
@@ -532,6 +534,8 @@ impl<'a> Eval<'a> {
           // least fixed point: re-entering the same rule on the same value node matches nothing
           let key = (format!("{}{}", n, if args.is_empty() { String::new() } else { format!("<{}>", args.iter().map(crate::skel::g1).collect::<Vec<_>>().join(",")) }), v as *const DV as usize);
           if self.active.contains(&key) {
+            // an unguarded reference cycle: degenerate schema, not judged
+            self.out_of_fuel = true;
             return Rej;
           }
           if self.active.len() > 200 {
@@ -973,6 +977,13 @@ impl<'a> Eval<'a> {
     }
     if pairs.len() > 12 {
       return Unspec;
+    }
+    if !self.dup_keys_decided {
+      for (i, (k, _)) in pairs.iter().enumerate() {
+        if pairs[..i].iter().any(|(k2, _)| k2 == k) {
+          return Unspec; // duplicate keys are C10's business
+        }
+      }
     }
     let alts = match self.flatten(g, 0) {
       Some(a) => a,
